@@ -20,16 +20,23 @@ import (
 	"github.com/smart-core-os/sc-golang/pkg/resource"
 	"github.com/smart-core-os/sc-golang/pkg/trait/electricpb"
 	"github.com/smart-core-os/sc-golang/pkg/trait/hailpb"
+	"github.com/smart-core-os/sc-golang/pkg/trait/publicationpb"
 	"github.com/smart-core-os/sc-golang/pkg/wrap"
 	"github.com/smart-core-os/sc-golang/verif_h/reg"
 	"verifrt"
 	"verifrt/hx"
 )
 
-func hailItemBody(name string, updatesOnly bool) func() {
+// restricted: the model's collection lets clients write the state and nothing else (writable fields): the updates of
+// this history, which name the state in their masks, are as welcome as before.
+func hailItemBody(name string, updatesOnly, restricted bool) func() {
 	return func() {
 		first := &traits.Hail{Id: "h1", State: traits.Hail_BOARDING, ArriveTime: &timestamppb.Timestamp{Seconds: 1_000_000}}
-		model := hailpb.NewModel(resource.WithInitialRecord("h1", first))
+		mopts := []resource.Option{resource.WithInitialRecord("h1", first)}
+		if restricted {
+			mopts = append(mopts, resource.WithWritablePaths(&traits.Hail{}, "state"))
+		}
+		model := hailpb.NewModel(mopts...)
 		inner := wrap.ServerToClient(traits.HailApi_ServiceDesc, hailpb.NewModelServer(model))
 		r := hailpb.NewApiRouter()
 		r.Add(devName, traits.NewHailApiClient(inner))
@@ -105,6 +112,105 @@ func hailItemBody(name string, updatesOnly bool) func() {
 			}
 			if after := get(); after == nil || !proto.Equal(after, cur) {
 				verifrt.Logf("FAIL item-rejected-update-changed-value %s ## step %d: UpdateHail returned %v but Get changed from %v to %v", name, step, err, cur, after)
+				return
+			}
+			if len(got) != 0 {
+				verifrt.Logf("FAIL item-rejected-update-emitted %s ## the stream received %v", name, got)
+			}
+		}
+		cancel()
+		verifrt.WaitIdle()
+		verifrt.Logf("OUT final=%v", cur)
+	}
+}
+
+// publicationItemBody: one publication of a publication device is a register too (Get / Update / Pull by id). With
+// foldIDs the model treats ids without regard to case (an id interceptor) and the client writes the id its own
+// way ("News" for what is stored as "news"): Get, Update and Pull name the same publication by it.
+func publicationItemBody(name string, updatesOnly, foldIDs bool) func() {
+	return func() {
+		first := &traits.Publication{Id: "news", Body: []byte("one"), MediaType: "text/plain", Audience: &traits.Publication_Audience{Name: "all"}}
+		opts := []resource.Option{resource.WithInitialRecord("news", first)}
+		id := "news"
+		if foldIDs {
+			opts = append(opts, resource.WithIDInterceptor(strings.ToLower))
+			id = "News"
+		}
+		model := publicationpb.NewModel(opts...)
+		inner := wrap.ServerToClient(traits.PublicationApi_ServiceDesc, publicationpb.NewModelServer(model))
+		r := publicationpb.NewApiRouter()
+		r.Add(devName, traits.NewPublicationApiClient(inner))
+		c := traits.NewPublicationApiClient(wrap.ServerToClient(traits.PublicationApi_ServiceDesc, r))
+		ctx, cancel := context.WithCancel(context.Background())
+		defer cancel()
+		bg := context.Background()
+
+		var got []*traits.Publication
+		stream, err := c.PullPublication(ctx, &traits.PullPublicationRequest{Name: devName, Id: id, UpdatesOnly: updatesOnly})
+		if err != nil {
+			verifrt.Logf("FAIL item-pull-open %s ## %v", name, err)
+			return
+		}
+		go func() {
+			for {
+				m, err := stream.Recv()
+				if err != nil {
+					return
+				}
+				for _, ch := range m.Changes {
+					if ch.Name != devName {
+						verifrt.Logf("FAIL item-pull-name %s ## change carries name %q", name, ch.Name)
+					}
+					got = append(got, ch.Publication)
+				}
+			}
+		}()
+		verifrt.WaitIdle()
+		get := func() *traits.Publication {
+			p, err := c.GetPublication(bg, &traits.GetPublicationRequest{Name: devName, Id: id})
+			if err != nil {
+				verifrt.Logf("FAIL item-get %s ## GetPublication(%q): %v", name, id, err)
+				return nil
+			}
+			return p
+		}
+		cur := get()
+		if cur == nil {
+			return
+		}
+		if !updatesOnly && (len(got) != 1 || !proto.Equal(got[0], cur)) {
+			verifrt.Logf("FAIL item-pull-initial %s ## the stream started with %v, Get returns %v", name, got, cur)
+		}
+		if masked, err := c.GetPublication(bg, &traits.GetPublicationRequest{Name: devName, Id: id, ReadMask: &fieldmaskpb.FieldMask{Paths: []string{"body"}}}); err != nil || !proto.Equal(masked, &traits.Publication{Body: cur.Body}) {
+			verifrt.Logf("FAIL item-get-mask %s ## Get with the read mask body returns %v (%v), the full Get %v", name, masked, err, cur)
+		}
+		got = nil
+		for step, body := range []string{"two", "three"} {
+			resp, err := c.UpdatePublication(bg, &traits.UpdatePublicationRequest{Name: devName, Publication: &traits.Publication{Id: id, Body: []byte(body)}, UpdateMask: &fieldmaskpb.FieldMask{Paths: []string{"body"}}})
+			verifrt.WaitIdle()
+			if err != nil {
+				verifrt.Logf("FAIL item-update %s ## UpdatePublication(body=%s): %v", name, body, err)
+				return
+			}
+			after := get()
+			if after == nil {
+				return
+			}
+			if !proto.Equal(resp, after) {
+				verifrt.Logf("FAIL item-update-response-not-get %s ## step %d: UpdatePublication answered %v, the next Get returns %v", name, step, resp, after)
+			}
+			if len(got) != 1 || !proto.Equal(got[0], resp) {
+				verifrt.Logf("FAIL item-update-not-on-stream %s ## step %d: the open stream received %v for the update answered with %v", name, step, got, resp)
+			}
+			got, cur = nil, after
+			// rejected: the version the client read has been overtaken
+			_, err = c.UpdatePublication(bg, &traits.UpdatePublicationRequest{Name: devName, Version: "not-the-version", Publication: &traits.Publication{Id: id, Body: []byte("x")}, UpdateMask: &fieldmaskpb.FieldMask{Paths: []string{"body"}}})
+			verifrt.WaitIdle()
+			if err == nil {
+				verifrt.Logf("FAIL item-stale-version-accepted %s ## an update naming a version the publication does not have was accepted", name)
+			}
+			if after := get(); after == nil || !proto.Equal(after, cur) {
+				verifrt.Logf("FAIL item-rejected-update-changed-value %s ## step %d: UpdatePublication returned %v but Get changed from %v to %v", name, step, err, cur, after)
 				return
 			}
 			if len(got) != 0 {
@@ -283,10 +389,13 @@ func electricActiveModeBody(name string, updatesOnly bool) func() {
 func registerItems(h *hx.H) {
 	h.Seq("servers/update-without-resource", bareUpdates)
 	h.Seq("items", func(s *hx.Seq) {
-		var rp struct{ UpdatesOnly, Streams, Electric bool }
-		run := func(uo bool) {
+		var rp struct{ UpdatesOnly, Streams, Electric, Publication, FoldIDs, Restricted bool }
+		run := func(uo, restricted bool) {
 			name := fmt.Sprintf("items/hail/get-update-pull by id/updates_only=%v", uo)
-			res := verifrt.RunOnce(nil, false, hailItemBody(name, uo))
+			if restricted {
+				name += "/collection with writable fields {state}"
+			}
+			res := verifrt.RunOnce(nil, false, hailItemBody(name, uo, restricted))
 			s.Eval(1)
 			s.Trans(8)
 			s.State(name)
@@ -294,11 +403,11 @@ func registerItems(h *hx.H) {
 			for _, l := range res.Log {
 				if strings.HasPrefix(l, "FAIL ") {
 					k, m, _ := strings.Cut(strings.TrimPrefix(l, "FAIL "), " ## ")
-					s.Fail(k, m, map[string]any{"UpdatesOnly": uo})
+					s.Fail(k, m, map[string]any{"UpdatesOnly": uo, "Restricted": restricted})
 				}
 			}
 			if res.Status != "ok" {
-				s.Fail(res.Status+" "+name, res.Msg, map[string]any{"UpdatesOnly": uo})
+				s.Fail(res.Status+" "+name, res.Msg, map[string]any{"UpdatesOnly": uo, "Restricted": restricted})
 			}
 		}
 		runElectric := func(uo bool) {
@@ -316,6 +425,24 @@ func registerItems(h *hx.H) {
 			}
 			if res.Status != "ok" {
 				s.Fail(res.Status+" "+name, res.Msg, map[string]any{"UpdatesOnly": uo, "Electric": true})
+			}
+		}
+		runPublication := func(uo, fold bool) {
+			name := fmt.Sprintf("items/publication/get-update-pull by id/updates_only=%v,ids-without-regard-to-case=%v", uo, fold)
+			res := verifrt.RunOnce(nil, false, publicationItemBody(name, uo, fold))
+			s.Eval(1)
+			s.Trans(8)
+			s.State(name)
+			s.Distinct(name)
+			rep := map[string]any{"UpdatesOnly": uo, "Publication": true, "FoldIDs": fold}
+			for _, l := range res.Log {
+				if strings.HasPrefix(l, "FAIL ") {
+					k, m, _ := strings.Cut(strings.TrimPrefix(l, "FAIL "), " ## ")
+					s.Fail(k, m, rep)
+				}
+			}
+			if res.Status != "ok" {
+				s.Fail(res.Status+" "+name, res.Msg, rep)
 			}
 		}
 		runStreams := func(uo bool) {
@@ -336,24 +463,31 @@ func registerItems(h *hx.H) {
 			}
 		}
 		if s.Replaying(&rp) {
-			if rp.Electric {
+			if rp.Publication {
+				runPublication(rp.UpdatesOnly, rp.FoldIDs)
+			} else if rp.Electric {
 				runElectric(rp.UpdatesOnly)
 			} else if rp.Streams {
 				runStreams(rp.UpdatesOnly)
 			} else {
-				run(rp.UpdatesOnly)
+				run(rp.UpdatesOnly, rp.Restricted)
 			}
 			return
 		}
 		if !s.Own() {
 			return
 		}
-		run(false)
-		run(true)
+		run(false, false)
+		run(true, false)
+		run(false, true)
 		runStreams(false)
 		runStreams(true)
 		runElectric(false)
 		runElectric(true)
+		for _, fold := range []bool{false, true} {
+			runPublication(false, fold)
+			runPublication(true, fold)
+		}
 		s.Sample(map[string]any{"history": "PullHail(h1) ; UpdateHail(state=DEPARTED, mask state) ; UpdateHail(mask no_such_field) ; UpdateHail(state=ARRIVED) ; UpdateHail(mask no_such_field), a Get after each", "meaning": "the hail h1 (arrived long ago) behind wrapper -> router -> wrapper is one register: responses equal the next Get, accepted updates appear on the open stream once, rejected ones change nothing"})
 	})
 }
